@@ -63,7 +63,8 @@ class Obj:
         return self.s.real(self.name(p))
 
     def __call__(self, p):
-        self.calls.append(p)
+        # record a snapshot: solvers mutate position lists in place after the call (particle_swarm), the point evaluated is the one seen now
+        self.calls.append(list(p) if isinstance(p, list) else p)
         v = self.value(p)
         return -v if self.flip else v
 
